@@ -7,6 +7,12 @@ by the real classes of `tools/rect/pseudobool.py` and by the Lean model (`FV/Mod
 Spec on implementation: under every assignment of the (≤ 6) variables of the tree the value of the object the
 implementation built equals the value computed directly from the tree with Python integers; a built inequality holds
 iff the direct comparison holds; every `Expr` / `Ineq.lhs` is in normal form (coefficients > 0, one term per variable).
+
+Program stream (expression DAGs): straight-line programs `v0 = …; v1 = …` whose statements reuse earlier Python OBJECTS
+as operands (also after they were operands of a comparison / `Ineq(...)` / `-` / `*`).  After every statement every
+earlier object must still have exactly the contents it had when it was built (`operand_mutated`); at the END of the
+program every built object is evaluated again under all assignments against the direct value of its definition, and
+its final contents are compared with the (purely functional) Lean model run on the expanded tree.
 """
 from __future__ import annotations
 
@@ -31,14 +37,16 @@ OPSTR = [">=", "<=", ">", "<", "=", "=="]   # strings accepted by Ineq(lhs, rhs,
 
 
 # ------------------------------------------------------------------ trees
-def kind(t) -> str:
+def kind(t, prog=None) -> str:
     h = t[0]
+    if h == "ref":
+        return kind(prog[t[1]], prog)
     if h in ("S", "N", "L"):
         return h
     if h == "neg":
-        return kind(t[1])
+        return kind(t[1], prog)
     if h == "mul":
-        ka, kb = kind(t[1]), kind(t[2])
+        ka, kb = kind(t[1], prog), kind(t[2], prog)
         if "E" in (ka, kb):
             return "E"
         if ka in "LT" or kb in "LT":
@@ -49,8 +57,10 @@ def kind(t) -> str:
     return "I"
 
 
-def tokens(t) -> str:
+def tokens(t, prog=None) -> str:
     h = t[0]
+    if h == "ref":
+        return tokens(prog[t[1]], prog)
     if h == "S":
         return f"S {t[1]}"
     if h == "N":
@@ -61,11 +71,11 @@ def tokens(t) -> str:
     if h == "L":
         return f"L {t[1]} {t[2]}"
     if h == "neg":
-        return "neg " + tokens(t[1])
+        return "neg " + tokens(t[1], prog)
     if h in ("mul", "add", "sub"):
-        return f"{h} {tokens(t[1])} {tokens(t[2])}"
+        return f"{h} {tokens(t[1], prog)} {tokens(t[2], prog)}"
     if h in ("cmp", "ineq"):
-        return f"{h} {t[1]} {tokens(t[2])} {tokens(t[3])}"
+        return f"{h} {t[1]} {tokens(t[2], prog)} {tokens(t[3], prog)}"
     raise ValueError(h)
 
 
@@ -73,20 +83,30 @@ def size(t) -> int:
     return 1 + sum(size(x) for x in t[1:] if isinstance(x, list))
 
 
-def tree_vars(t, acc=None) -> list[str]:
+def tree_vars(t, acc=None, prog=None) -> list[str]:
     acc = [] if acc is None else acc
+    if t[0] == "ref":
+        return tree_vars(prog[t[1]], acc, prog)
     if t[0] in ("S", "L"):
         if t[1] not in acc:
             acc.append(t[1])
     for x in t[1:]:
         if isinstance(x, list):
-            tree_vars(x, acc)
+            tree_vars(x, acc, prog)
     return acc
 
 
-def py_eval(t):
-    """run the real classes"""
+def expanded_size(t, prog) -> int:
+    if t[0] == "ref":
+        return expanded_size(prog[t[1]], prog)
+    return 1 + sum(expanded_size(x, prog) for x in t[1:] if isinstance(x, list))
+
+
+def py_eval(t, env=None):
+    """run the real classes; `["ref", k]` is the OBJECT built by statement k of the program"""
     h = t[0]
+    if h == "ref":
+        return env[t[1]]
     if h == "S":
         return t[1]
     if h == "N":
@@ -94,19 +114,19 @@ def py_eval(t):
     if h == "L":
         return pb.Literal(t[1], bool(t[2]))
     if h == "neg":
-        return -py_eval(t[1])
+        return -py_eval(t[1], env)
     if h == "mul":
-        return py_eval(t[1]) * py_eval(t[2])
+        return py_eval(t[1], env) * py_eval(t[2], env)
     if h == "add":
-        return py_eval(t[1]) + py_eval(t[2])
+        return py_eval(t[1], env) + py_eval(t[2], env)
     if h == "sub":
-        return py_eval(t[1]) - py_eval(t[2])
+        return py_eval(t[1], env) - py_eval(t[2], env)
     if h == "cmp":
-        a, b = py_eval(t[2]), py_eval(t[3])
+        a, b = py_eval(t[2], env), py_eval(t[3], env)
         o = t[1]
         return a >= b if o == ">=" else a <= b if o == "<=" else a > b if o == ">" else a < b if o == "<" else a == b
     if h == "ineq":
-        return pb.Ineq(py_eval(t[2]), py_eval(t[3]), t[1])
+        return pb.Ineq(py_eval(t[2], env), py_eval(t[3], env), t[1])
     raise ValueError(h)
 
 
@@ -114,9 +134,11 @@ def cmp_ints(o: str, x: int, y: int) -> bool:
     return x >= y if o == ">=" else x <= y if o == "<=" else x > y if o == ">" else x < y if o == "<" else x == y
 
 
-def den(t, sig) -> int | bool:
+def den(t, sig, prog=None) -> int | bool:
     """the value computed directly from how the expression was built (Python integers; numbers go through int())"""
     h = t[0]
+    if h == "ref":
+        return den(prog[t[1]], sig, prog)
     if h == "S":
         return sig[t[1]]
     if h == "N":
@@ -124,16 +146,16 @@ def den(t, sig) -> int | bool:
     if h == "L":
         return sig[t[1]] if t[2] else 1 - sig[t[1]]
     if h == "neg":
-        x = den(t[1], sig)
-        return 1 - x if kind(t[1]) == "L" else -x
+        x = den(t[1], sig, prog)
+        return 1 - x if kind(t[1], prog) == "L" else -x
     if h == "mul":
-        return den(t[1], sig) * den(t[2], sig)
+        return den(t[1], sig, prog) * den(t[2], sig, prog)
     if h == "add":
-        return den(t[1], sig) + den(t[2], sig)
+        return den(t[1], sig, prog) + den(t[2], sig, prog)
     if h == "sub":
-        return den(t[1], sig) - den(t[2], sig)
+        return den(t[1], sig, prog) - den(t[2], sig, prog)
     if h in ("cmp", "ineq"):
-        return cmp_ints("=" if t[1] == "==" else t[1], den(t[2], sig), den(t[3], sig))
+        return cmp_ints("=" if t[1] == "==" else t[1], den(t[2], sig, prog), den(t[3], sig, prog))
     raise ValueError(h)
 
 
@@ -180,10 +202,10 @@ def obj_out(o) -> str:
     return f"?{type(o).__name__}"
 
 
-def impl_run(t):
+def impl_run(t, env=None):
     """(wire string, object or None)"""
     try:
-        o = py_eval(t)
+        o = py_eval(t, env)
     except TypeError:
         return "err:TypeError", None
     except Exception as e:  # the module raises bare `Exception`
@@ -205,24 +227,26 @@ def normal_form_problem(e: pb.Expr):
     return None
 
 
-def spec_on_impl(ctx: Ctx, t, o, inp) -> None:
-    vs = tree_vars(t)
-    sz = size(t)
+def spec_on_impl(ctx: Ctx, t, o, inp, prog=None, when="") -> bool:
+    """False if a failure was reported"""
+    vs = tree_vars(t, None, prog)
+    sz = size(t) if prog is None else sum(size(x) for x in prog)
     if isinstance(o, pb.Expr) or isinstance(o, pb.Ineq):
         prob = normal_form_problem(o if isinstance(o, pb.Expr) else o.lhs)
         if prob:
-            ctx.spec_fail("normal_form", inp, {"problem": prob, "impl": obj_out(o)}, size=sz)
-            return
+            ctx.spec_fail("normal_form" + when, inp, {"problem": prob, "impl": obj_out(o)}, size=sz)
+            return False
     if not isinstance(o, (pb.Literal, pb.Term, pb.Expr, pb.Ineq)):
-        return
+        return True
     for bits in itertools.product((0, 1), repeat=len(vs)):
         sig = dict(zip(vs, bits))
-        want = den(t, sig)
+        want = den(t, sig, prog)
         got = obj_val(o, sig)
         if got != want or isinstance(got, bool) != isinstance(want, bool):
             clause = "ineq_holds_iff" if isinstance(o, pb.Ineq) else "eval_tree"
-            ctx.spec_fail(clause, inp, {"assignment": sig, "direct": want, "built": got, "impl": obj_out(o)}, size=sz)
-            return
+            ctx.spec_fail(clause + when, inp, {"assignment": sig, "direct": want, "built": got, "impl": obj_out(o)}, size=sz)
+            return False
+    return True
 
 
 # ------------------------------------------------------------------ generation
@@ -237,7 +261,19 @@ def gen_num(rng):
     return ["N", "f", rng.choice([2.5, -1.5, 0.5, -0.5, 0.999, -2.75, 1e3 + 0.25, 3.999999])]
 
 
+POOL = None   # during program generation: kind -> indices of earlier statements of that kind
+
+
+def from_pool(rng, k, p=0.45):
+    if POOL and POOL.get(k) and rng.random() < p:
+        return ["ref", rng.choice(POOL[k])]
+    return None
+
+
 def gen_lit(rng, nv):
+    r = from_pool(rng, "L")
+    if r:
+        return r
     t = ["L", rng.choice(VARS[:nv]), rng.choice([1, 1, 0])]
     while rng.random() < 0.2:
         t = ["neg", t]
@@ -245,6 +281,9 @@ def gen_lit(rng, nv):
 
 
 def gen_term(rng, nv, depth):
+    r = from_pool(rng, "T")
+    if r:
+        return r
     r = rng.random()
     if depth <= 0 or r < 0.5:
         a, n = gen_lit(rng, nv), gen_num(rng)
@@ -279,6 +318,9 @@ def gen_pb(rng, nv, depth):
 
 
 def gen_expr(rng, nv, depth):
+    r = from_pool(rng, "E", 0.6)
+    if r:
+        return r
     r = rng.random()
     if depth <= 0:
         a = gen_lit(rng, nv) if rng.random() < 0.5 else gen_term(rng, nv, 0)
@@ -358,6 +400,129 @@ def exhaustive_trees():
                 yield ["mul", ["N", "i", n], ["sub", base, x]]
 
 
+# ------------------------------------------------------------------ programs (expression DAGs with object reuse)
+def snapshot(o):
+    """exact contents of an object (what must not change when it is used as an operand)"""
+    if isinstance(o, pb.Literal):
+        return ("L", o.v, o.s)
+    if isinstance(o, pb.Term):
+        return ("T", o.c, o.L.v, o.L.s)
+    if isinstance(o, pb.Expr):
+        return ("E", o.c, tuple((k, o.t[k].c, o.t[k].L.v, o.t[k].L.s) for k in o.t))
+    if isinstance(o, pb.Ineq):
+        return ("I", o.op, o.rhs, snapshot(o.lhs))
+    return ("V", repr(o))
+
+
+def gen_zeroish(rng, nv):
+    """operands that are worth nothing: 0, 0.0, an empty expression"""
+    r = rng.random()
+    if r < 0.4:
+        return ["N", "i", 0]
+    if r < 0.55:
+        return ["N", "f", rng.choice([0.0, -0.0, 0.5])]
+    if r < 0.8:
+        return ["add", ["mul", ["L", rng.choice(VARS[:nv]), 1], ["N", "i", 0]], ["N", "i", 0]]   # Expr() with nothing in it
+    e = from_pool(rng, "E", 1.0)
+    return ["sub", e, e] if e else ["N", "i", 0]
+
+
+def gen_program(rng, max_depth):
+    global POOL
+    nv = rng.choice([1, 2, 2, 3, 3, 4])
+    prog, kinds = [], []
+    POOL = {"L": [], "T": [], "E": [], "I": []}
+    try:
+        for _ in range(rng.randint(2, 7)):
+            r = rng.random()
+            d = rng.randint(0, max(1, max_depth - 2))
+            if r < 0.08:
+                st = gen_lit(rng, nv) if not POOL["L"] else ["neg", ["ref", rng.choice(POOL["L"])]]
+                if st[0] == "ref":
+                    st = ["L", rng.choice(VARS[:nv]), 1]
+            elif r < 0.18:
+                st = gen_term(rng, nv, 1)
+                if st[0] == "ref":
+                    st = ["mul", st, gen_num(rng)]
+            elif r < 0.55 or not POOL["E"]:
+                st = gen_expr(rng, nv, d)
+                if st[0] == "ref":
+                    st = ["add", st, gen_operand(rng, nv, 0)]
+            elif r < 0.70:   # an earlier expression compared with something worth nothing (or the other way round)
+                e = ["ref", rng.choice(POOL["E"])]
+                z = gen_zeroish(rng, nv)
+                k = rng.random()
+                if k < 0.5:
+                    st = ["cmp", rng.choice(OPS), e, z]
+                elif k < 0.7 and kind(z, prog) == "E":
+                    st = ["ineq", rng.choice(OPSTR), e, z] if rng.random() < 0.6 else ["ineq", rng.choice(OPSTR), z, e]
+                elif k < 0.85:
+                    st = ["sub", e, z]
+                else:
+                    st = ["cmp", rng.choice(OPS), z, e] if kind(z, prog) in "NS" else ["add", e, z]
+            else:
+                st = gen_ineq(rng, nv, d)
+            prog.append(st)
+            kinds.append(kind(st, prog))
+            POOL[kinds[-1]].append(len(prog) - 1)
+    finally:
+        POOL = None
+    return prog
+
+
+def run_program(ctx: Ctx, prog, reqs, todo, stream="program") -> None:
+    inp = {"program": prog}
+    sz = sum(size(x) for x in prog)
+    env, snaps = [], []
+    ok = True
+    for k, st in enumerate(prog):
+        impl, obj = impl_run(st, env)
+        if obj is None:
+            ctx.spec_fail("operation-raised", inp, {"statement": k, "raised": impl}, size=sz)
+            ok = False
+            break
+        env.append(obj)
+        snaps.append(snapshot(obj))
+        for j in range(k):
+            now = snapshot(env[j])
+            if now != snaps[j]:
+                ctx.spec_fail("operand_mutated", inp, {"statement": k, "mutated_value": j, "before": repr(snaps[j]),
+                                                        "after": repr(now)}, size=sz)
+                ok = False
+                break
+        if not ok:
+            break
+        if not spec_on_impl(ctx, st, obj, inp, prog):
+            ok = False
+            break
+    # at the END of the program every object must still mean what its definition says
+    for k in range(len(env)):
+        if ok and not spec_on_impl(ctx, prog[k], env[k], inp, prog, when="@end"):
+            ok = False
+        if expanded_size(prog[k], prog) <= 300:
+            reqs.append("P tree " + tokens(prog[k], prog))
+            todo.append((inp, obj_out(env[k]), sz))
+    ctx.case(stream, repr(prog), nontrivial=any(x[0] == "ref" for st in prog for x in _walk(st)),
+             sample={"program": [tokens_refs(st) for st in prog]})
+    ctx.count("program:len%d" % len(prog))
+    ctx.count("program:reuses%d" % min(6, sum(1 for st in prog for x in _walk(st) if x[0] == "ref")))
+
+
+def _walk(t):
+    yield t
+    for x in t[1:]:
+        if isinstance(x, list):
+            yield from _walk(x)
+
+
+def tokens_refs(t) -> str:
+    if t[0] == "ref":
+        return f"v{t[1]}"
+    if t[0] in ("S", "N", "L"):
+        return tokens(t)
+    return t[0] + " " + " ".join(tokens_refs(x) if isinstance(x, list) else str(x) for x in t[1:])
+
+
 # ------------------------------------------------------------------ driver
 def one(ctx: Ctx, t, reqs, todo, stream="tree", wellformed=True) -> None:
     inp = {"tree": t, "wellformed": wellformed}
@@ -377,7 +542,7 @@ def one(ctx: Ctx, t, reqs, todo, stream="tree", wellformed=True) -> None:
 def compare(ctx: Ctx, todo, replies) -> None:
     for (inp, impl, sz), model in zip(todo, replies):
         if impl != model:
-            ctx.disagree("tree", inp, impl, model, size=sz)
+            ctx.disagree("program" if "program" in inp else "tree", inp, impl, model, size=sz)
 
 
 def run(ctx: Ctx) -> None:
@@ -385,10 +550,14 @@ def run(ctx: Ctx) -> None:
                 "-x, int/float multiples (incl. 0, negatives, non-integral floats → int() truncation), +, - with str / number / "
                 "literal / term / expression operands, reflected + and comparisons, the five comparison operators and direct "
                 "Ineq(a, b, op) calls with all six operator strings; 4% rejected combinations (exception class compared); "
-                "non-trivial = at least 4 tree nodes and one variable; distinct = distinct token string")
+                "non-trivial = at least 4 tree nodes and one variable; distinct = distinct token string; "
+                "program stream: 2–7 statements, each a small tree whose operands are, with probability 0.45–0.6 per position, "
+                "the OBJECT built by an earlier statement; 15% of the statements compare / subtract an earlier expression "
+                "with 0, 0.0 or an empty expression; non-trivial = at least one reuse")
     ctx.assumptions += [
         "numbers reaching int() are ints or finite floats (nan/inf raise inside int(), outside the model)",
         "Expr objects are built through the operators (or Expr(c, t) with t[k].L.v == k), never by mutating .t directly",
+        "operations never mutate their operands (checked on every statement of every program: snapshot before / after) — this is what lets the functional model speak about programs that reuse objects",
     ]
     reqs, todo = [], []
     n = ctx.n(8000, 300000)
@@ -396,9 +565,13 @@ def run(ctx: Ctx) -> None:
     for t in getattr(ctx, "seed_inputs", []) or []:
         if isinstance(t, dict) and "tree" in t:
             one(ctx, t["tree"], reqs, todo, "seed", t.get("wellformed", True))
+        elif isinstance(t, dict) and "program" in t:
+            run_program(ctx, t["program"], reqs, todo, "seed")
     for _ in range(n):
         t, wf = gen_tree(ctx.rng, md)
         one(ctx, t, reqs, todo, "tree", wf)
+    for _ in range(ctx.n(4000, 100000)):
+        run_program(ctx, gen_program(ctx.rng, md), reqs, todo)
     if ctx.tier == "thorough" and ctx.budget <= 1.0:
         cnt = 0
         for t in exhaustive_trees():
@@ -414,7 +587,10 @@ def run(ctx: Ctx) -> None:
 
 def replay(ctx: Ctx, body: dict) -> None:
     reqs, todo = [], []
-    one(ctx, body["input"]["tree"], reqs, todo, "tree", body["input"].get("wellformed", True))
+    if "program" in body["input"]:
+        run_program(ctx, body["input"]["program"], reqs, todo)
+    else:
+        one(ctx, body["input"]["tree"], reqs, todo, "tree", body["input"].get("wellformed", True))
     replies = ctx.model(reqs)
     if replies:
         compare(ctx, todo, replies)
